@@ -231,12 +231,13 @@ def run_given(col, strategy, fn, n, seed, tier, sub, shrink=True):
     import hypothesis
     from hypothesis import given
 
+    hyp_shrink = shrink and tier != "quick"
     for attempt in range(MAX_SIGNATURES[tier]):
         col.last_failure = None
         state = {"calls_after_failure": 0, "failing": set()}
 
         @hypothesis.seed(derive_seed(seed, sub, attempt))
-        @_hyp_settings(n, tier, shrink)
+        @_hyp_settings(n, tier, hyp_shrink)
         @given(strategy)
         def test(case):
             if col.last_failure is not None:
@@ -264,10 +265,88 @@ def run_given(col, strategy, fn, n, seed, tier, sub, shrink=True):
                 "message": v.message,
                 "case": json.loads(canon(v.case)),
             }
+            if shrink and not hyp_shrink:
+                lf = ddmin_case(lf, fn, SHRINK_CALLS[tier])
             lf["sub"] = sub
             col.violations.append(lf)
             col.suppressed.add(lf["signature"])
             continue
+
+
+def _paths(obj, prefix=()):
+    """paths of all lists inside a JSON-like object (deepest first)"""
+    out = []
+    if isinstance(obj, dict):
+        for k, v in obj.items():
+            out += _paths(v, prefix + (k,))
+    elif isinstance(obj, list):
+        for i, v in enumerate(obj):
+            out += _paths(v, prefix + (i,))
+        out.append(prefix)
+    return out
+
+
+def _get(obj, path):
+    for k in path:
+        obj = obj[k]
+    return obj
+
+
+def ddmin_case(lf, fn, max_calls):
+    """bounded greedy minimisation of a JSON case: delete list elements (largest lists first, chunks then
+    singles) while fn still raises a Violation with the same signature."""
+    import copy
+
+    best = lf
+    calls = [0]
+
+    def fails(c):
+        calls[0] += 1
+        try:
+            fn(c)
+        except Violation as v:
+            if v.signature == lf["signature"]:
+                return {"signature": v.signature, "message": v.message, "case": json.loads(canon(c))}
+        except Exception:
+            return None
+        return None
+
+    changed = True
+    while changed and calls[0] < max_calls:
+        changed = False
+        case = best["case"]
+        paths = sorted((p for p in _paths(case) if p and p[0] not in ("clients", "config")),
+                       key=lambda p: -len(_get(case, p)))
+        for path in paths:
+            if calls[0] >= max_calls:
+                break
+            try:
+                lst = _get(best["case"], path)
+            except (KeyError, IndexError, TypeError):
+                continue
+            if not isinstance(lst, list):
+                continue
+            n = len(lst)
+            chunk = max(1, n // 2)
+            while chunk >= 1 and calls[0] < max_calls:
+                i = len(_get(best["case"], path)) - chunk
+                progressed = False
+                while i >= 0 and calls[0] < max_calls:
+                    cand = copy.deepcopy(best["case"])
+                    l2 = _get(cand, path)
+                    if len(l2) < i + chunk or len(l2) - chunk < (1 if path[-1] in ("markets", "strategies", "runners") else 0):
+                        i -= chunk
+                        continue
+                    del l2[i:i + chunk]
+                    r = fails(cand)
+                    if r is not None:
+                        best = r
+                        changed = progressed = True
+                    i -= chunk
+                if chunk == 1:
+                    break
+                chunk = chunk // 2
+    return best
 
 
 def run_machine(col, machine_cls, n, steps, seed, tier, sub, shrink=True):
